@@ -16,7 +16,7 @@ fn world_all(lock: u32, seq: u32) -> World {
     for x in keys::u().by_xonly.keys() {
         keys_set.insert(*x);
     }
-    World { keys: keys_set, preimages: keys::u().preimages.iter().copied().collect(), lock_time: lock, sequence: seq }
+    World { keys: keys_set, preimages: keys::u().preimages.iter().copied().collect(), lock_time: lock, sequence: seq, tx_version: 2 }
 }
 
 fn put(t: &mut TxCtx, script_sig: Vec<u8>, wit: Vec<Vec<u8>>) {
